@@ -1,16 +1,21 @@
 #!/bin/sh
-# try_refactors.sh: apply each stored behaviour-preserving refactoring to a scratch worktree and list the alarms the checks raise (all are false alarms)
+# try_refactors.sh [set]: apply each stored behaviour-preserving refactoring (refactors/<set>/r*.diff, made against
+# the commit named in refactors/<set>/BASE) to a scratch worktree and list the alarms the checks raise: all are false alarms.
 cd /verif
 export GOFLAGS=-mod=mod GOPROXY=off GOSUMDB=off GOTOOLCHAIN=local GOWORK=off
-for d in refactors/r*.diff; do
-  n=$(basename $d .diff)
-  W=/tmp/vref-$$-$n
-  git -C /repo worktree add --detach "$W" "${REFACTOR_BASE:-b392ce1}" >/dev/null 2>&1
-  if (cd $W && git apply --3way /verif/$d >/dev/null 2>&1 || git apply /verif/$d >/dev/null 2>&1) && (cd $W && go build ./... >/dev/null 2>&1); then
-    out=$(bin/cloverlint -property all -tier quick -repo "$W" -verif /verif -no-evidence 2>&1 | grep -E "^(VIOLATED|UNDECIDED|CHECKER)" | sed -E 's/^(VIOLATED|UNDECIDED) C[0-9]+: //' | grep -v "^PLAN8/" | sort -u)
-    if [ -z "$out" ]; then echo "$n: clean"; else echo "$n: FALSE ALARMS"; echo "$out" | cut -c1-260 | sed 's/^/    /'; fi
-  else
-    echo "$n: does not apply/build on the current tree (skipped)"
-  fi
-  git -C /repo worktree remove --force "$W" >/dev/null 2>&1; rm -rf "$W"
+for set in ${1:-a b}; do
+  base=$(cat refactors/$set/BASE)
+  for d in refactors/$set/r*.diff; do
+    n=$set/$(basename $d .diff)
+    W=/tmp/vref-$$-$(basename $d .diff)
+    git -C /repo worktree add --detach "$W" "$base" >/dev/null 2>&1
+    if (cd $W && git apply /verif/$d >/dev/null 2>&1) && (cd $W && go build ./... >/dev/null 2>&1); then
+      out=$(bin/cloverlint -property all -tier quick -repo "$W" -verif /verif -no-evidence 2>&1 | grep -E "^(VIOLATED|UNDECIDED|CHECKER)" | sed -E 's/^(VIOLATED|UNDECIDED) C[0-9]+: //' | sort -u)
+      [ "$base" = b392ce1 ] && out=$(echo "$out" | grep -v "^PLAN8/")
+      if [ -z "$out" ]; then echo "$n: clean"; else echo "$n: FALSE ALARMS"; echo "$out" | cut -c1-260 | sed 's/^/    /'; fi
+    else
+      echo "$n: does not apply/build (skipped)"
+    fi
+    git -C /repo worktree remove --force "$W" >/dev/null 2>&1; rm -rf "$W"
+  done
 done
